@@ -4,6 +4,7 @@ Imports models, specs and property *definitions* only (never the proofs), so tha
 builds when a proof obligation is broken by a change to /repo.
 -/
 import DebInspector.Props.C01
+import DebInspector.Props.C02
 import DebInspector.Props.C03
 import DebInspector.Props.C04
 
@@ -14,6 +15,7 @@ def dispatch (op : String) (v : Val) : Option Val :=
   | "C01" => Props.C01.check.run v
   | "C01s" => Props.C01.checkS.run v
   | "C01c" => Props.C01.checkC.run v
+  | "C02" => Props.C02.check.run v
   | "C03" => Props.C03.check.run v
   | "C04" => Props.C04.check.run v
   | _ => none
